@@ -60,6 +60,9 @@ class Contract:
     loop_inv: dict = field(default_factory=dict)
     param_types: dict = field(default_factory=dict)
     local_types: dict = field(default_factory=dict)
+    only_kinds: list = field(default_factory=list)  # variant contracts: obligation kinds this contract is about
+    inherits: str | None = None  # class name of the contract whose requires / invariants / raises are taken over
+    extras: dict = field(default_factory=dict)  # requires_extra / inv_extra_<k> of a variant
     ret_type: T.Ty | None = None
     inline: bool = False
     trusted: bool = False
@@ -155,6 +158,11 @@ class SpecSet:
         for d in node.decorator_list:
             if isinstance(d, ast.Call) and ast.unparse(d.func) == "contract":
                 fq = ast.literal_eval(d.args[0])
+                for kw in d.keywords:
+                    if kw.arg == "variant":
+                        # a second contract on the same function (a stronger precondition, its own clauses): verified
+                        # on its own, never used at call sites (those use the plain contract of the function)
+                        fq = f"{fq}@{ast.literal_eval(kw.value)}"
         if fq is None:
             return
         c = Contract(fq=fq, name=node.name, spec_module=modname)
@@ -177,6 +185,10 @@ class SpecSet:
                     c.param_types = dict(v)
                 elif k == "local_types":
                     c.local_types = dict(v)
+                elif k == "only_kinds":
+                    c.only_kinds = list(v)
+                elif k == "inherits":
+                    c.inherits = v
                 elif k == "ret_type":
                     c.ret_type = v
                 elif k == "module":
@@ -195,6 +207,10 @@ class SpecSet:
                     c.requires = fn
                 elif st.name.startswith("ensures"):
                     c.ensures[st.name] = fn
+                elif st.name == "requires_extra":
+                    c.extras["requires"] = fn
+                elif st.name.startswith("inv_extra_"):
+                    c.extras[int(st.name[10:])] = fn
                 elif st.name.startswith("inv_"):
                     c.loop_inv[int(st.name[4:])] = fn
                 elif st.name.startswith("raises_"):
@@ -253,6 +269,23 @@ class SpecSet:
             d["ret"] = ty(d.get("ret", "None"))
             self._module_fns[fq] = d
         w.extra_subclass.update(self.extra_subclass)
+        for c in self.contracts.values():
+            if c.inherits:
+                base = next((b for b in self.contracts.values() if b.name == c.inherits), None)
+                if base is None:
+                    raise Unsupported(f"contract {c.name} inherits from unknown contract {c.inherits}")
+                c.requires = [base.requires, c.extras.get("requires")]
+                for k_, inv_ in base.loop_inv.items():
+                    c.loop_inv[k_] = [inv_, c.extras.get(k_)]
+                if not c.raises:
+                    c.raises = dict(base.raises)
+                if not c.modifies:
+                    c.modifies = list(base.modifies)
+                if not c.param_types:
+                    c.param_types = dict(base.param_types)
+                if c.ret_type is None:
+                    c.ret_type = base.ret_type
+                c.assumes = {**base.assumes, **c.assumes}
         for c in self.contracts.values():
             c.param_types = {k: ty(v) for k, v in c.param_types.items()}
             c.local_types = {k: ty(v) for k, v in c.local_types.items()}
@@ -422,6 +455,9 @@ class DslMixin:
         """evaluate a spec function to a z3 Bool.  bindings=None: evaluate in the current code frame
         (loop invariants)."""
         from .symex import Frame
+        if isinstance(fn, (list, tuple)):
+            # several clauses that are to hold together (an inherited invariant plus the variant's own addition)
+            return z3.And(*[self.eval_spec(f_, bindings, c) for f_ in fn if f_ is not None])
         self.spec_mode += 1
         target_mod = None
         if c is not None:
